@@ -240,9 +240,20 @@ class PipeTable:
             # emptiness and length do not depend on sort keys or maps: canonical id of the filter-only pipe
             if not hasattr(p, '_fonly'):
                 stages = p.stages
-                p._fonly = p if not any(st[0] == 'sort' for st in stages) else \
-                    SSeq(p.src, tuple(st for st in stages if st[0] != 'sort'), 'list', False)
-            # maps matter only through later filters; keep them
+                if not any(st[0] in ('sort', 'map', 'reverse') for st in stages):
+                    p._fonly = p
+                else:
+                    # one filter stage that keeps an element iff the whole pipe keeps it (maps matter only through later filters)
+                    def keeps(e, stages=stages):
+                        from .interp import _and
+                        v, pred = e, True
+                        for kind, fn in stages:
+                            if kind == 'filter':
+                                pred = _and(pred, fn(v))
+                            elif kind == 'map':
+                                v = fn(v)
+                        return pred
+                    p._fonly = SSeq(p.src, (('filter', keeps),), 'list', False)
             cid = self.canon_id(p._fonly)
         key = (cid, what, extra)
         if key in self.obs:
